@@ -399,6 +399,18 @@ def fam_conditional(rec, rng, R, D, info, ck):
                                lambda o, nm=nm: getattr(o["c"], nm)(o["p"])))
                 cs.append(Case(f"{tag}.{nm}[(1,n)]", {"c": c1, "p": pR}, {"p"},
                                lambda o, nm=nm: getattr(o["c"], nm)(o["p"])))
+            # update_Sigma on a batch: component r must get its new covariance whatever the other
+            # components do (first component changes a lot, the others by parts in a million)
+            S_old = np.asarray(c.Sigma, dtype=float)
+            S_upd = S_old * (1.0 + 4e-6)
+            S_upd[0] = gen.spd(rng, Dy, 10.0, diag=ck in ("diag", "identity_diag")) * 3.0
+
+            def upd(o):
+                cc = o["c"].slice(JI(np.arange(o["c"].R)))  # a copy: update_Sigma works in place
+                cc.update_Sigma(o["S"])
+                return cc
+            cs.append(Case(f"{tag}.update_Sigma[mixed change]", {"c": c, "S": J(S_upd)},
+                           {"c", "S"}, upd))
             cs.append(Case(f"{tag}.integrate_log_conditional[(1,n)]", {"c": c1, "p": pyxR}, {"p"},
                            lambda o: o["c"].integrate_log_conditional(o["p"])))
             if not ck.startswith("identity"):
